@@ -111,10 +111,14 @@ def double_include(rng, text, main_url):
     return "".join(l + "\n" for l in twice), resources
 
 
+_N = {"n": 0}
+
+
 def compare(schema, text, resources, main=MAIN, expect_reject=False):
     """-> (inline outcome, split outcome, [(sig, detail)])"""
     inline = outcome(loadcheck.real_load(schema, text, url=main))
-    real_res, real_main, root = loadcheck.materialise(resources, main)
+    _N["n"] += 1
+    real_res, real_main, root = loadcheck.materialise(resources, main, reuse=_N["n"] % 2 == 0)
     try:
         split = outcome(loadcheck.real_load_url(schema, real_main))
     finally:
